@@ -362,3 +362,178 @@ func bwsCrash(c *Ctx) {
 	c.Set("crash_runs", int64(okRuns))
 	c.Add("traces_validated_against_impl", int64(okRuns))
 }
+
+// ---- heavy contention without any hook traffic: whole writes, no loss, per-writer order ----
+
+type bwsChunkSink struct {
+	mu     sync.Mutex
+	chunks [][]byte
+}
+
+func (s *bwsChunkSink) Write(p []byte) (int, error) {
+	s.mu.Lock()
+	s.chunks = append(s.chunks, append([]byte(nil), p...))
+	s.mu.Unlock()
+	return len(p), nil
+}
+func (s *bwsChunkSink) Sync() error { return nil }
+
+// bwsContention: many writers, records whose length does not divide the buffer size, tiny buffer: every sink
+// write must consist of whole records, every record must arrive exactly once, each writer's in its order.
+func bwsContention(c *Ctx) {
+	runs := c.Pick(6, 60)
+	for r := 0; r < runs && !c.Saturated(); r++ {
+		sink := &bwsChunkSink{}
+		b := &zapcore.BufferedWriteSyncer{WS: sink, Size: 64, FlushInterval: time.Hour}
+		const W, N = 8, 1500
+		var wg sync.WaitGroup
+		for w := 0; w < W; w++ {
+			wg.Add(1)
+			go func(w int) {
+				defer wg.Done()
+				for i := 0; i < N; i++ {
+					rec := fmt.Sprintf("<%d:%05d>", w, i) // 9 bytes + newline
+					b.Write([]byte(rec + "\n"))
+				}
+			}(w)
+		}
+		wg.Wait()
+		b.Stop()
+		next := make([]int, W)
+		bad := ""
+		sink.mu.Lock()
+		for ci, ch := range sink.chunks {
+			if len(ch) == 0 || ch[0] != '<' || ch[len(ch)-1] != '\n' {
+				bad = fmt.Sprintf("sink write #%d does not consist of whole caller writes: %q", ci, string(head(ch, 60)))
+				break
+			}
+			for _, rec := range strings.Split(strings.TrimSuffix(string(ch), "\n"), "\n") {
+				var w, i int
+				if _, err := fmt.Sscanf(rec, "<%d:%05d>", &w, &i); err != nil || len(rec) != 9 || w < 0 || w >= W {
+					bad = fmt.Sprintf("sink write #%d holds a torn record %q", ci, rec)
+					break
+				}
+				if i != next[w] {
+					bad = fmt.Sprintf("record %d of writer %d arrived where record %d was due (lost, duplicated or reordered)", i, w, next[w])
+					break
+				}
+				next[w]++
+			}
+			if bad != "" {
+				break
+			}
+		}
+		sink.mu.Unlock()
+		if bad == "" {
+			for w := range next {
+				if next[w] != N {
+					bad = fmt.Sprintf("writer %d: %d of %d records reached the sink after Stop", w, next[w], N)
+				}
+			}
+		}
+		if bad != "" {
+			key := "C12/whole-writes"
+			if strings.Contains(bad, "arrived where") || strings.Contains(bad, "reached the sink") {
+				key = "C12/no-loss-dup-order"
+			}
+			c.Violation(key, fmt.Sprintf("free-running, %d writers x %d ten-byte records, Size 64: %s", W, N, bad), map[string]interface{}{"mode": "contention"})
+		}
+		c.Add("traces_validated_against_impl", 1)
+	}
+	c.Set("contention_runs", int64(runs))
+}
+
+// ---- a tick that arrives while a writer holds the lock -----------------------------------------
+// (BWS.tla: WLock(p), WBody(p) in progress inside the sink, Tick, LoopTick; LoopLock is enabled only after the writer
+// released the lock; then LoopBody.)  After the writer finished and the system is quiet, everything accepted before
+// the tick was processed must be in the sink and the sink must have been synced after it.
+
+type bwsGateSink struct {
+	mu      sync.Mutex
+	data    []byte
+	synced  int // length of data at the last Sync
+	parkOn  int // park the n-th Write (1-based) until release is closed
+	writes  int
+	parked  chan struct{}
+	release chan struct{}
+}
+
+func (s *bwsGateSink) Write(p []byte) (int, error) {
+	s.mu.Lock()
+	s.writes++
+	park := s.writes == s.parkOn
+	s.mu.Unlock()
+	if park {
+		close(s.parked)
+		<-s.release
+	}
+	s.mu.Lock()
+	s.data = append(s.data, p...)
+	s.mu.Unlock()
+	return len(p), nil
+}
+func (s *bwsGateSink) Sync() error {
+	s.mu.Lock()
+	s.synced = len(s.data)
+	s.mu.Unlock()
+	return nil
+}
+
+type bwsUnbufClock struct{ ch chan time.Time }
+
+func (c bwsUnbufClock) Now() time.Time                       { return time.Unix(1700000000, 0) }
+func (c bwsUnbufClock) NewTicker(time.Duration) *time.Ticker { return &time.Ticker{C: c.ch} }
+
+func bwsTickUnderContention(c *Ctx) {
+	for rep := 0; rep < c.Pick(3, 20); rep++ {
+		sink := &bwsGateSink{parkOn: 1, parked: make(chan struct{}), release: make(chan struct{})}
+		clk := bwsUnbufClock{make(chan time.Time)}
+		b := &zapcore.BufferedWriteSyncer{WS: sink, Size: 16, FlushInterval: time.Hour, Clock: clk}
+		b.Write([]byte("first-line\n")) // 11 bytes: buffered
+		done := make(chan struct{})
+		go func() {
+			defer close(done)
+			b.Write([]byte("second-line\n")) // does not fit: pre-flush of the first line parks inside the sink, lock held
+		}()
+		select {
+		case <-sink.parked:
+		case <-time.After(3 * time.Second):
+			c.Note("tick-under-contention: the pre-flush never reached the sink")
+			b.Stop()
+			continue
+		}
+		// the tick is consumed by the flush loop while the writer still holds the lock
+		select {
+		case clk.ch <- time.Unix(1700000001, 0):
+		case <-time.After(3 * time.Second):
+			c.Note("tick-under-contention: the flush loop did not take the tick")
+			close(sink.release)
+			<-done
+			b.Stop()
+			continue
+		}
+		time.Sleep(2 * time.Millisecond)
+		close(sink.release)
+		<-done
+		// quiet: no further tick, Sync or Stop. The processed tick must leave both lines in a synced sink.
+		ok := false
+		deadline := time.Now().Add(500 * time.Millisecond)
+		for time.Now().Before(deadline) {
+			sink.mu.Lock()
+			ok = string(sink.data) == "first-line\nsecond-line\n" && sink.synced == len(sink.data)
+			sink.mu.Unlock()
+			if ok {
+				break
+			}
+			time.Sleep(time.Millisecond)
+		}
+		if !ok {
+			sink.mu.Lock()
+			c.Violation("C12/tick-ack", fmt.Sprintf("a flush tick was taken while a Write held the lock; after that Write finished and the tick had been processed, the sink holds %q of which %d bytes are synced (everything accepted before the tick must be in a synced sink)", string(sink.data), sink.synced),
+				map[string]interface{}{"mode": "tick-under-contention"})
+			sink.mu.Unlock()
+		}
+		c.Add("traces_validated_against_impl", 1)
+		b.Stop()
+	}
+}
